@@ -163,7 +163,7 @@ func VerifC04URL() {
 		return
 	}
 	symCover("unchanged")
-	symAssert(refSchemeKind(s) != c04Other, "unchanged implies relative reference or allow-listed scheme")
+	symAssert(!symDFAAccepts(c04Trans, c04NC, c04Class[:], c04Start, s, c04AcceptOther()), "unchanged implies relative reference or allow-listed scheme")
 }
 
 // VerifC04URLLong: the same claim for long inputs: H free symbolic bytes, then PAD symbolic bytes
